@@ -73,6 +73,7 @@ type interpreter struct {
 	initBad  map[*ssa.Package]string
 	initing  int
 	replaced map[string]value // per-path function replacements (verifrt.Replace)
+	setupReplaced map[string]value // those installed by the harness's setup part
 	steps    int64
 	maxSteps int64
 	depth    int
